@@ -515,6 +515,24 @@ func runC50(c *Ctx) {
 	}
 	c.Ob("comparator", "getConnectedNodes#sorts-the-result", sortCall.Pos(), types_ExprString(sortCall.Args[0]) == "nodes", "the slice sorted is the result slice")
 	g := gn.Closure(cmpLit)
+	// sort.Slice permutes only the slice it is given: a comparator that uses its positions
+	// i, j to index anything else reads data of the wrong elements after the first swap
+	sortedObj := gn.ObjOf(sortCall.Args[0])
+	npos := 0
+	ast.Inspect(cmpLit.Body, func(m ast.Node) bool {
+		ix, ok := m.(*ast.IndexExpr)
+		if !ok {
+			return true
+		}
+		pv := g.Prov(ix.Index)
+		if pv != "lit.param#0" && pv != "lit.param#1" {
+			return true
+		}
+		npos++
+		c.Ob("comparator", "getConnectedNodes#positions-index-only-the-sorted-slice", ix.Pos(), sortedObj != nil && g.ObjOf(ix.X) == sortedObj, "inside the comparator the positions i, j index only the slice being sorted (sort.SliceStable swaps that slice alone; a parallel slice indexed by position goes stale at the first swap); found "+g.Str(ix))
+		return true
+	})
+	c.Floor("comparator position uses", npos, 2)
 	// the comparator reads rttLookup[key(nodes[i])], rttLookup[key(nodes[j])]
 	type pair struct{ li, lj bool }
 	eval := func(lOK, rOK bool, l, r *big.Int) bool {
